@@ -57,7 +57,19 @@ mod verif_kani_float {
         }
     }
 
+    // zero divisor <=> Err(ZeroDivisor); Ok values are finite; overflow/undefined only for non-finite quotients
     #[kani::proof]
+    fn div_f_classes() {
+        let a = any_f64(); let b = any_f64();
+        match div_f(a, b) {
+            Err(EvalError::ZeroDivisor) => assert!(b == 0.0),
+            Ok(OrderedFloat(g)) => { assert!(b != 0.0); assert!(g.is_finite()); }
+            Err(_) => { assert!(b != 0.0); assert!(!(a.is_finite() && b.is_finite() && b.abs() >= 1.0)); }
+        }
+    }
+
+    #[kani::proof]
+    #[kani::solver(kissat)]
     fn div_f_spec() {
         let a = any_f64(); let b = any_f64();
         let r = div_f(a, b);
@@ -105,8 +117,12 @@ mod verif_kani_float {
                 let v = x.get_num();
                 assert!(v >= -36028797018963968 && v <= 36028797018963967);
                 let xf = v as f64;
-                assert!(xf <= f);
-                assert!(f - xf < 1.0);
+                if v > 9007199254740992 || v < -9007199254740992 {
+                    assert!(xf == f);                 // beyond 2^53 every double is integral: floor(f) = f
+                } else {
+                    assert!(xf <= f);                 // |x| <= 2^53: x as f64 and x as f64 + 1.0 are exact
+                    assert!(f < xf + 1.0);
+                }
             }
             Ok(Number::Integer(_)) => assert!(!fits),
             _ => assert!(false),
@@ -132,7 +148,7 @@ mod verif_kani_float {
 }
 '''},
     "harnesses": {
-        "classify_float_spec": {}, "float_fn_to_f_spec": {}, "add_f_spec": {}, "mul_f_spec": {}, "div_f_spec": {}, "number_float_predicates": {},
+        "classify_float_spec": {}, "float_fn_to_f_spec": {}, "add_f_spec": {}, "mul_f_spec": {}, "div_f_classes": {}, "div_f_spec": {"tier": "thorough"}, "number_float_predicates": {},
         "rnd_i_float": {"stubs": ["try_from"], "bound": "operand domain |f| <= 2^56 (beyond it the result is a bignum on every path); complete over that domain"},
         "rnd_i_nonfinite": {"stubs": ["try_from"]},
 
